@@ -76,3 +76,46 @@ def line_len(interp, v):
         interp.ctx.assume(v.w.length(v.z) >= 0)
         return VInt(v.w.length(v.z))
     return VInt(v.w.nf(v.z) - v.k)
+
+
+# ---- abstract JSON records for node_link_graph (C11) -----------------------------------------------------------------------------
+
+class RecWorld(object):
+    def __init__(self):
+        self.nid = fresh_fun('rec_id', Obj, Node)        # node record -> its id
+        self.attrs = fresh_fun('rec_attrs', Obj, Obj)     # node record -> its other attributes
+        self.src = fresh_fun('link_source', Obj, Node)
+        self.tgt = fresh_fun('link_target', Obj, Node)
+        self.tm = fresh_fun('link_time', Obj, Int)
+        self.nonempty = fresh_fun('attrs_nonempty', Obj, Bool)   # truth value of an attribute dict
+
+
+class VRecord(V):
+    kind = 'record'
+
+    def __init__(self, w, z, role, idkey='id'):
+        self.w, self.z, self.role, self.idkey = w, z, role, idkey
+
+
+def m_record_get(interp, recv, argv, kwv):
+    # node_record.get(<id key>, default): node records carry their id (precondition of the contract)
+    k = argv[0]
+    if recv.role == 'node' and k.kind == 'str' and k.s == recv.idkey:
+        return VNode(recv.w.nid(recv.z))
+    raise Undecided('record.get(%s)' % getattr(k, 's', k.kind))
+
+
+def m_record_items(interp, recv, argv, kwv):
+    return VOpaque(recv.z, 'recitems:' + recv.idkey)
+
+
+def record_getitem(interp, c, key):
+    if c.role == 'link' and key.kind == 'str':
+        if key.s == 'source':
+            return VNode(c.w.src(c.z))
+        if key.s == 'target':
+            return VNode(c.w.tgt(c.z))
+        if key.s == 'time':
+            return VInt(c.w.tm(c.z))
+        raise PyRaise('KeyError', key.s)
+    raise Undecided('record[%s]' % getattr(key, 's', key.kind))
